@@ -3,6 +3,13 @@
 //! Run/C17.v and prints the same observations.
 //!
 //!   c17 tccache   case   = ( cap ( (content id) ... ) ( id ... ) ( (path content mtime) ... ) ( op ... ) )
+//!   c17 mount     case   = ( cap ( (content id) ... ) ( id ... ) ( (dir/ pages) ... ) ( op ... ) )
+//!                 like tccache, but the listed shard directories of the cache are mount points of their own
+//!                 (tmpfs of `pages` 4 KiB pages, in a PRIVATE mount namespace of this process; always
+//!                 unmounted): a rename into them fails with EXDEV, a copy into them can hit ENOSPC part-way.
+//!                 contents may be written ( rep byte n ); observations give lengths instead of contents.
+//!                 Prints `(skipped)` for every case when mount namespaces are unavailable.
+//!   c17 mountcheck       -> 1 / 0
 //!   c17 client    case   = ( cap ( (content id) ... ) ( op ... ) )      the client side: ClientToolchains
 //!   c17 hash      line   = ( content ... )   ->   ( id ... )     (real ids: sccache::util::Digest = BLAKE3)
 //!
@@ -22,6 +29,70 @@ use vh::{catch, Sx};
 
 const BASE: i64 = 1_000_000_000;
 const RANGE: i64 = 100_000_000;
+
+/// A content argument: a byte string, or ( rep byte n ).
+fn content_arg(x: &Sx) -> Vec<u8> {
+    if x.tag() == "rep" {
+        vec![x.arg(1).u64() as u8; x.arg(2).u64() as usize]
+    } else {
+        x.bytes().to_vec()
+    }
+}
+
+fn show_content(content: Vec<u8>, compact: bool) -> Sx {
+    if compact {
+        Sx::usize(content.len())
+    } else {
+        Sx::B(content)
+    }
+}
+
+/// Put the tree saved by `snapshot` back in place of the files below `root` (mount points stay).
+fn restore(snap: &Path, root: &Path) {
+    let mut files = vec![];
+    walk(root, root, &mut files);
+    for (_, p) in files {
+        std::fs::remove_file(&p).unwrap();
+    }
+    snapshot(snap, root);
+    let _ = std::fs::remove_dir_all(snap);
+}
+
+/// Enter a private mount namespace (mounts made by this process are invisible outside and vanish with it).
+fn private_mount_namespace() -> bool {
+    unsafe {
+        if libc::unshare(libc::CLONE_NEWNS) != 0 {
+            return false;
+        }
+        let root = std::ffi::CString::new("/").unwrap();
+        libc::mount(std::ptr::null(), root.as_ptr(), std::ptr::null(), libc::MS_REC | libc::MS_PRIVATE, std::ptr::null()) == 0
+    }
+}
+
+/// A tmpfs of `pages` 4 KiB pages mounted at a directory inside the scratch dir; unmounted on drop.
+struct Tmpfs(PathBuf);
+impl Tmpfs {
+    fn mount(at: &Path, pages: u64) -> Option<Tmpfs> {
+        std::fs::create_dir_all(at).ok()?;
+        let src = std::ffi::CString::new("tmpfs").unwrap();
+        let tgt = std::ffi::CString::new(at.as_os_str().as_bytes()).unwrap();
+        let opt = std::ffi::CString::new(format!("size={}", pages * 4096)).unwrap();
+        let r = unsafe { libc::mount(src.as_ptr(), tgt.as_ptr(), src.as_ptr(), 0, opt.as_ptr() as *const libc::c_void) };
+        if r == 0 {
+            Some(Tmpfs(at.to_owned()))
+        } else {
+            None
+        }
+    }
+}
+impl Drop for Tmpfs {
+    fn drop(&mut self) {
+        let tgt = std::ffi::CString::new(self.0.as_os_str().as_bytes()).unwrap();
+        unsafe {
+            libc::umount2(tgt.as_ptr(), libc::MNT_DETACH);
+        }
+    }
+}
 
 fn real_id(content: &[u8]) -> Vec<u8> {
     Digest::reader_sync(content).unwrap().into_bytes()
@@ -84,7 +155,7 @@ fn anyhow_kind(e: &anyhow::Error) -> &'static str {
 
 /// Sorted listing of the entry files below `root` as (path content logical-mtime real-digest); files the
 /// code under test just touched (mtime outside the logical range) are reported and moved onto the logical clock.
-fn list_dir(root: &Path, clock: &mut i64) -> (Vec<Sx>, Vec<Sx>, u64) {
+fn list_dir(root: &Path, clock: &mut i64, compact: bool) -> (Vec<Sx>, Vec<Sx>, u64) {
     let mut listing = vec![];
     walk(root, root, &mut listing);
     listing.sort();
@@ -109,7 +180,7 @@ fn list_dir(root: &Path, clock: &mut i64) -> (Vec<Sx>, Vec<Sx>, u64) {
         };
         let content = std::fs::read(&path).unwrap();
         let id = real_id(&content);
-        files.push(Sx::L(vec![Sx::B(rel), Sx::B(content), Sx::N(logical as u128), Sx::B(id)]));
+        files.push(Sx::L(vec![Sx::B(rel), show_content(content, compact), Sx::N(logical as u128), Sx::B(id)]));
     }
     (touched, files, ntmp)
 }
@@ -123,11 +194,13 @@ struct World {
     clock: i64,
     poisoned: bool,
     nfile: u64,
+    /// mount leg: shard directories are mount points; observations give lengths
+    compact: bool,
 }
 
 impl World {
     fn observe(&mut self, res: &str, ret: Vec<Sx>) -> Sx {
-        let (touched, files, ntmp) = list_dir(&self.root, &mut self.clock);
+        let (touched, files, ntmp) = list_dir(&self.root, &mut self.clock, self.compact);
         let mut present = vec![];
         let (size, len, index) = match &self.cache {
             Some(c) => {
@@ -181,7 +254,7 @@ impl World {
         match tag.as_str() {
             "reopen" => (self.open(op.arg(1).u64()).into(), none),
             "insert_with" => {
-                let content = op.arg(2).bytes().to_vec();
+                let content = content_arg(op.arg(2));
                 let fail = op.arg(3).as_bool();
                 let tc = match tc_of(op.arg(1).bytes()) {
                     Some(tc) => tc,
@@ -200,7 +273,7 @@ impl World {
                 (match r { Ok(()) => "ok", Err(e) => anyhow_kind(&e) }.into(), none)
             }
             "crash_upload" => {
-                let content = op.arg(2).bytes().to_vec();
+                let content = content_arg(op.arg(2));
                 let cap = op.arg(3).u64();
                 let (root, snap) = (self.root.clone(), self.snap.clone());
                 let _ = std::fs::remove_dir_all(&snap);
@@ -216,7 +289,9 @@ impl World {
                     });
                 }
                 self.cache = None;
-                if snapped {
+                if snapped && self.compact {
+                    restore(&snap, &root);
+                } else if snapped {
                     std::fs::remove_dir_all(&root).unwrap();
                     std::fs::rename(&snap, &root).unwrap();
                 }
@@ -225,7 +300,7 @@ impl World {
             "insert_file" => {
                 self.nfile += 1;
                 let src = self.ext.join(format!("f{}", self.nfile));
-                std::fs::write(&src, op.arg(1).bytes()).unwrap();
+                std::fs::write(&src, content_arg(op.arg(1))).unwrap();
                 match self.cache.as_mut().unwrap().verif_insert_file(&src) {
                     Ok(tc) => ("ok".into(), vec![Sx::B(tc.archive_id.into_bytes())]),
                     Err(e) => {
@@ -233,6 +308,30 @@ impl World {
                         (anyhow_kind(&e).into(), none)
                     }
                 }
+            }
+            "crash_insert_file" => {
+                // (mount leg) the process is killed while insert_file's fall-back copy is writing:
+                // a forked child with RLIMIT_FSIZE = `limit` runs the real insert_file and dies of
+                // SIGXFSZ once the copy has written `limit` bytes; then the cache is re-opened.
+                self.nfile += 1;
+                let src = self.ext.join(format!("f{}", self.nfile));
+                std::fs::write(&src, content_arg(op.arg(1))).unwrap();
+                let limit = op.arg(2).u64();
+                let cap = op.arg(3).u64();
+                let pid = unsafe { libc::fork() };
+                if pid == 0 {
+                    let lim = libc::rlimit { rlim_cur: limit, rlim_max: limit };
+                    unsafe { libc::setrlimit(libc::RLIMIT_FSIZE, &lim) };
+                    let r = self.cache.as_mut().unwrap().verif_insert_file(&src);
+                    unsafe { libc::_exit(if r.is_ok() { 0 } else { 1 }) };
+                }
+                let mut status = 0;
+                unsafe { libc::waitpid(pid, &mut status, 0) };
+                let how = if libc::WIFSIGNALED(status) { "killed" } else if libc::WEXITSTATUS(status) == 0 { "done" } else { "failed" };
+                let _ = std::fs::remove_file(&src);
+                self.cache = None;
+                let r = self.open(cap);
+                (r.into(), vec![Sx::sym(how)])
             }
             "get" => {
                 let tc = match tc_of(op.arg(1).bytes()) {
@@ -244,7 +343,7 @@ impl World {
                         let mut content = vec![];
                         rdr.read_to_end(&mut content).unwrap();
                         let id = real_id(&content);
-                        ("ok".into(), vec![Sx::B(content), Sx::B(id)])
+                        ("ok".into(), vec![show_content(content, self.compact), Sx::B(id)])
                     }
                     Err(e) => (lru_kind(&e).into(), none),
                 }
@@ -268,10 +367,10 @@ impl World {
     }
 }
 
-fn run_case(case: &Sx) -> Sx {
+fn run_case(case: &Sx, mounted: bool) -> Sx {
     // the table gives the model its digest function: it must be the real one
     for e in case.arg(1).list() {
-        if real_id(e.arg(0).bytes()) != e.arg(1).bytes() {
+        if real_id(&content_arg(e.arg(0))) != e.arg(1).bytes() {
             return Sx::L(vec![Sx::sym("bad_table")]);
         }
     }
@@ -281,11 +380,22 @@ fn run_case(case: &Sx) -> Sx {
     let snap = td.path().join("snap");
     std::fs::create_dir_all(&root).unwrap();
     std::fs::create_dir_all(&ext).unwrap();
-    for f in case.arg(3).list() {
-        let p = root.join(OsStr::from_bytes(f.arg(0).bytes()));
-        std::fs::create_dir_all(p.parent().unwrap()).unwrap();
-        std::fs::write(&p, f.arg(1).bytes()).unwrap();
-        set_file_mtime(&p, FileTime::from_unix_time(BASE + f.arg(2).u64() as i64, 0)).unwrap();
+    // declared after `td`, so the mounts are gone before the scratch directory is removed
+    let mut mounts = vec![];
+    if mounted {
+        for m in case.arg(3).list() {
+            match Tmpfs::mount(&root.join(OsStr::from_bytes(m.arg(0).bytes())), m.arg(1).u64()) {
+                Some(t) => mounts.push(t),
+                None => return Sx::L(vec![Sx::sym("skipped")]),
+            }
+        }
+    } else {
+        for f in case.arg(3).list() {
+            let p = root.join(OsStr::from_bytes(f.arg(0).bytes()));
+            std::fs::create_dir_all(p.parent().unwrap()).unwrap();
+            std::fs::write(&p, f.arg(1).bytes()).unwrap();
+            set_file_mtime(&p, FileTime::from_unix_time(BASE + f.arg(2).u64() as i64, 0)).unwrap();
+        }
     }
     let mut w = World {
         root,
@@ -296,6 +406,7 @@ fn run_case(case: &Sx) -> Sx {
         clock: 1000,
         poisoned: false,
         nfile: 0,
+        compact: mounted,
     };
     let mut out = vec![];
     let r = w.open(case.arg(0).u64());
@@ -314,6 +425,8 @@ fn run_case(case: &Sx) -> Sx {
             }
         }
     }
+    drop(w);
+    drop(mounts);
     Sx::L(out)
 }
 
@@ -375,7 +488,7 @@ fn run_client(case: &Sx) -> Sx {
         };
         match r {
             Ok((res, ret)) => {
-                let (touched, files, ntmp) = list_dir(&root, &mut clock);
+                let (touched, files, ntmp) = list_dir(&root, &mut clock, false);
                 let mut leftovers = vec![];
                 walk(&dir.join("toolchain_tmp"), &dir.join("toolchain_tmp"), &mut leftovers);
                 out.push(Sx::L(vec![
@@ -405,10 +518,18 @@ fn main() {
     vh::quiet_panics();
     let leg = std::env::args().nth(1).unwrap_or_default();
     if leg == "hash" {
-        vh::run_lines(|x| Sx::L(x.list().iter().map(|c| Sx::B(real_id(c.bytes()))).collect()));
+        vh::run_lines(|x| Sx::L(x.list().iter().map(|c| Sx::B(real_id(&content_arg(c)))).collect()));
     } else if leg == "client" {
         vh::run_lines(run_client);
+    } else if leg == "mountcheck" {
+        println!("{}", if private_mount_namespace() { 1 } else { 0 });
+    } else if leg == "mount" {
+        if private_mount_namespace() {
+            vh::run_lines(|c| run_case(c, true));
+        } else {
+            vh::run_lines(|_| Sx::L(vec![Sx::sym("skipped")]));
+        }
     } else {
-        vh::run_lines(run_case);
+        vh::run_lines(|c| run_case(c, false));
     }
 }
